@@ -12,6 +12,8 @@ def harnesses_b(tier):
     H.append(BHarness('K2_amr_child', 'c16_amr.cpp', 'h_k2_child', timeout=900, maxpaths=4000, strict=True, split=2,
         what='AMRGridCell after one real refinement (create_all_cells): get_child(position) returns, on each axis independently, the child that starts at the parent mid-plane iff the position is above that axis\' own mid-plane (else the child at the parent anchor); children are half as wide; octant index i maps to the child with the anchor of octant i',
         bound='one refinement level; box anchor, sides (>0) and position symbolic; all 8 octant paths'))
+    H.append(BHarness('K2_amr_grandchild', 'c16_amr.cpp', 'h_k2_child2', timeout=900, maxpaths=4000, strict=True, split=2, tiers=('thorough',),
+        what='AMRGridCell after two real refinement levels: descending twice with get_child(position) reaches the leaf whose box starts, on each axis, at the mid-plane of the selected level-1 cell iff the position is above it; sizes halve per level', bound='two refinement levels (72 cells); box and position symbolic; all 64 octant-pair paths'))
     return H
 def harnesses_a(tier):
     return [AHarness('K3_longindex', 'c16_grid.cpp', 'h_k3_longindex', unwind=4, timeout=600, native_replay=False, what='get_long_index is the row-major bijection onto [0,nx*ny*nz) and get_indices inverts it', bound='n per axis in [1,8], every in-range index triple')]
